@@ -166,6 +166,12 @@ def pair_worker(args):
         # replay concretely (exact rounding, plain floats)
         cv = scripth.concrete_values(ca, ctx.model_values(model))
         msg = replay_pair(ca, cb, proga, slotsa, progb, slotsb, cv, rgb)
+        if msg is None and (mode == 'elide' or what is None):
+            # round-elision asserts more than the property (unrounded values within 1/4); a model that
+            # fails it but whose real, rounded run agrees within one unit is not a counterexample --
+            # and a nonlinear model that does not even violate the constraints it was returned for is unusable
+            res.inconclusive.append('%s: elided-rounding bound exceeded symbolically, concrete run agrees' % res.label)
+            continue
         res.violation('%s|%s' % (res.label, scripth._sig_of(what or 'differs')),
                       'units chain %s: %s\n  replay: %s\n  with chain:\n%s' % (res.label, what, msg, scripth.text_with_values(ca, cv)),
                       inputs={'chain': list(chain), 'values': cv, 'script': scripth.text_with_values(ca, cv)},
@@ -308,7 +314,7 @@ def run(tier, seed):
     # cheapest first: chains without rgb are linear
     chains.sort(key=lambda c: (sum(m == 'rgb' for m in c), len(c)))
     items += [{'chain': c, 'timeout_ms': 10000 if tier == 'quick' else 30000, 'max_paths': 3000,
-               'budget_s': 40 if tier == 'quick' else 300} for c in chains]
+               'budget_s': 40 if tier == 'quick' else 150} for c in chains]
     results, skipped = report.run_pool(dispatch, items, budget_s=common.tier_budget(tier, 80, 1000))
     return report.finish(
         PROP, tier, seed, 'exploration', results, skipped,
